@@ -965,6 +965,7 @@ class H3Connection:
             stream.frame_type == FrameType.DATA
             and stream.frame_size is not None
             and len(stream.buffer) < stream.frame_size
+            and not stream_ended
         ):
             stream.content_length += len(stream.buffer)
             http_events.append(
@@ -980,7 +981,7 @@ class H3Connection:
             return http_events
 
         # handle lone FIN
-        if stream_ended and not stream.buffer:
+        if stream_ended and not stream.buffer and stream.frame_size is None:
             self._check_content_length(stream)
 
             http_events.append(
@@ -1064,7 +1065,9 @@ class H3Connection:
                         frame_type=frame_type,
                         frame_data=frame_data,
                         stream=stream,
-                        stream_ended=stream.receiving_ended and buf.eof(),
+                        stream_ended=stream.receiving_ended
+                        and buf.eof()
+                        and stream.frame_size is None,
                     )
                 )
             except pylsqpack.StreamBlocked:
@@ -1074,6 +1077,14 @@ class H3Connection:
 
         # remove processed data from buffer
         stream.buffer = stream.buffer[consumed:]
+
+        # a stream must not end in the middle of a frame (RFC 9114, section 7.1)
+        if (
+            stream_ended
+            and not stream.blocked
+            and (stream.buffer or stream.frame_size is not None)
+        ):
+            raise FrameError("Stream ended with a truncated frame")
 
         return http_events
 
